@@ -530,7 +530,8 @@ func c01r3(c *Ctx, r *Report) {
 		// appended value derived from a term's text
 		fromText := false
 		for _, a := range call.Call.Args[1:] {
-			for v := range backwardSlice(a, nil, nil) {
+			// (through calls: the text may pass a string function, e.g. an escaping of the key separator)
+			for v := range backwardSlice(a, func(*ssa.CallCommon) bool { return true }, nil) {
 				if fld, _ := fieldOf(v); fld != nil && fld.Name() == "text" {
 					fromText = true
 				}
